@@ -1,18 +1,25 @@
 (* Proofs about the history model with failing commands (HistFailDefs.v).  No axioms.
+   Part S2: acceptance of a scan is monotone ([scan_accepts_mono]): same sources, nothing clean became
+           dirty, targets needed by the accepted scan => accepted (extends HistProofs.scan_accepts,
+           which needs an all-clean graph).
    Part A: what one failing command does ([fail_edge_spec]).
-   Part B: GoodF (= StateOkF /\ LogSoundF) is kept by every step, failing invocations included
-           ([goodF_frame], [goodF_run], [goodF_fail], [goodF_hist]).
-   Part C: [late], [StaleEntry], [TaintOk]: soundness of the booleans, stability, and
-           "a stale entry makes the output must_dirty" ([stale_md]).
+   Part B: GoodF (= StateOkF /\ LogSoundF) is kept by every step ([goodF_frame], [goodF_run],
+           [goodF_fail]).
+   Part C: [late], [StaleEntry], [TaintOk]: soundness of the booleans, stability under every step,
+           and "a stale entry makes the output must_dirty" ([stale_md]).
    Part D: one successful invocation from a GoodF state in which no tainted output is validated by
-           an old log entry yields the clean contents ([C01F_build]).
-   Part E: the shape of a failing invocation and C05 (c)/(a)/(b): [C05_failed_not_recorded],
-           [C05_dependents_not_started], [C05_exit_failed].
-   Part F: "so the next invocation runs it again": [C05_next_invocation_reruns], refuted without
-           its premise [rerun_reason] ([C05_next_invocation_reruns_refuted], the listed finding
-           failed-cmd-rewrote-output).
-   Part G: histories: [goodF_hist], [C01F_history], [C01_after_failures_untouched_or_deleted],
-           [C01_failed_cmd_rewrote_output_refuted]. *)
+           an old log entry yields the clean contents ([scan_clean_correctF], [C01F_build]).
+   Part E: the shape of a failing invocation ([build_uptoF_shape], [failed_invocation]) and C05
+           (c)/(a)/(b): [C05_failed_not_recorded_proof], [C05_dependents_not_started_proof],
+           [C05_exit_failed_proof].
+   Part F: "so the next invocation runs it again": [C05_next_invocation_reruns_proof] (premise
+           [rerun_reason]), [next_invocation_accepted_proof], [rerun_reason_untouched_proof],
+           [C05_reruns_untouched_or_deleted_proof] (no premise), [C05_no_success_without_rerun_proof].
+   Part G: histories: [goodF_hist_proof], [C01F_history_proof],
+           [C01_after_failures_untouched_or_deleted_proof], [good_fhist_no_wrote_proof].
+   After the section: the refutations by computation ([C05_next_invocation_reruns_refuted_proof],
+           [C01F_history_refuted_proof], [C01_failed_cmd_rewrote_output_refuted_proof]: the listed
+           finding failed-cmd-rewrote-output) and the non-vacuity witnesses. *)
 From NinjaV Require Import Engine.CrashDefs.
 From NinjaV Require Import Base.Bytes Engine.ScanDefs Engine.ScanSpec Engine.ScanProofs Engine.HistDefs Engine.HistProofs Engine.HistFailDefs.
 Local Open Scope Z_scope.
@@ -300,11 +307,6 @@ Proof.
     + intros o Ho. rewrite (proj2 (mem_node_In o _) Ho). split; [reflexivity|].
       destruct (K eq_refl o Ho) as [m [Em Hm]]. exists m. split; [exact Em|lia].
 Qed.
-
-Lemma world_fail_untouched st e :
-  0 <= h_clock st -> (forall n m c, h_disk st n = Some (m, c) -> 0 < m <= h_clock st) ->
-  W (fail_edge g st e FailUntouched) = W st /\ G (fail_edge g st e FailUntouched) = G st.
-Proof. intros _ _. split; reflexivity. Qed.
 
 (* ================================================================== Part B: GoodF is kept *)
 Lemma goodF_of_good st : Good cmd g st -> GoodF cmd g st.
@@ -876,6 +878,12 @@ Proof.
     unfold content_of. unfold st'. rewrite Hd, Hc. reflexivity.
 Qed.
 
+(* the same with the hypothesis as the boolean [taint_safe] *)
+Theorem C01F_build_bool_proof st T st' :
+  GoodF cmd g st -> taint_safe g st = true -> build cmd g st T = Some st' ->
+  forall n, reach g T n -> content_of st' n = clean_of cmd g st' n.
+Proof. intros HG Hts. apply (C01F_build st T st' HG (taint_okb_sound true st Hts)). Qed.
+
 (* ================================================================== Part E: the failing invocation *)
 (* statement [j] is started by the loop over plan [p] from [st] *)
 Definition ran (p : plan) (st : hstate) (j : edge) : bool :=
@@ -1262,7 +1270,7 @@ Qed.
 
 (* ... so, all premises being about the failing invocation: the next invocation gets to its build
    phase and starts the failed command again *)
-Theorem C05_next_invocation_reruns_full_proof st T fs st1 e kd stk :
+Theorem C05_next_invocation_accepted_and_reruns_proof st T fs st1 e kd stk :
   GoodF cmd g st -> no_inputless_phony g = true ->
   buildF_full cmd g st T fs = Some (st1, Some (e, kd, stk)) ->
   rerun_reason g stk e kd ->
@@ -1295,8 +1303,61 @@ Proof.
   apply (C05_next_invocation_reruns_proof st T fs st1 e kd stk st2 HG Hfull Hreason Hunt Hb').
 Qed.
 
+(* what the outputs of a needed statement need, the targets need *)
+Lemma needed_outs st T e e' : needed g T e -> neededE (G st) (outs e) e' -> neededE (G st) T e'.
+Proof.
+  intros [n0 [R0 P0]] [n [Rn Pn]]. apply (needed_G g T st). change (g_producer g n = Some e') in Pn.
+  apply (reach_G g st) in Rn.
+  assert (Hall : forall z, reach g (outs e) z -> In z (outs e) \/ reach g T z).
+  { intros z Rz. induction Rz as [t Ht|x y Hx IH [ex [Hex Hin]]]; [left; exact Ht|]. right.
+    destruct IH as [Hxo|Hxr].
+    - rewrite (o_prod g Hwf e x Hxo) in Hex. inversion Hex; subst ex.
+      apply (reach_step g (manifest_ins g) T n0 y R0). exists e. split; assumption.
+    - apply (reach_step g (manifest_ins g) T x y Hxr). exists ex. split; assumption. }
+  destruct (Hall n Rn) as [Ho|Hr].
+  - rewrite (o_prod g Hwf e n Ho) in Pn. inversion Pn; subst e'. exists n0. split; assumption.
+  - exists n. split; assumption.
+Qed.
+
+(* FailUntouched needs no premise: the re-evaluation scan of [dirty_now] is accepted, so the failed
+   statement was must_dirty when it was started *)
+Theorem rerun_reason_untouched_proof st T fs st1 e stk :
+  GoodF cmd g st -> no_inputless_phony g = true ->
+  buildF_full cmd g st T fs = Some (st1, Some (e, FailUntouched, stk)) ->
+  rerun_reason g stk e FailUntouched.
+Proof.
+  intros HG Hnip Hfull.
+  destruct (failed_invocation st T fs st1 e FailUntouched stk HG Hfull)
+    as [s [p [l [Hs [He [Hstk [_ [HGk [_ [Hw [Hph [Hdn _]]]]]]]]]]]].
+  destruct (want_sound g Hwf Hwg Hfrag st T s p Hs e Hw) as [Hn _].
+  destruct (build_inv1F st p HG e ltac:(lia)) as [_ [Hh [Hfr _]]]. rewrite <- Hstk in Hh, Hfr.
+  assert (HGr : G stk = G st) by (apply G_hash_eq; exact Hh).
+  apply (dirty_now_md stk e Hdn). rewrite HGr.
+  apply (scan_accepts_mono (G st) Hwf Hwg Hfrag Htopo Hnip (outs e) T (W st) (W stk) s p Hs).
+  - intros e' He'. apply (needed_outs st T e e' Hn He').
+  - intros t Ht Hp. change (g_producer g t = None) in Hp. rewrite (o_prod g Hwf e t Ht) in Hp. discriminate.
+  - intros n Hc Hmd.
+    apply (clean_stable g Hwf Hwg Hfrag st (W st) (W stk) (frame_clean g Hwf Hwg Hfrag st T s p Hs e stk Hfr) n Hmd Hc).
+  - intros n Hp. change (g_producer g n = None) in Hp. cbn [world_of w_mtime]. unfold mtime_of.
+    rewrite (frame_leaf g st p e stk n Hfr Hp). reflexivity.
+Qed.
+
+(* C05 "so the next invocation runs it again" for the faults that leave no new file behind: no
+   premise beyond the failing invocation itself *)
+Theorem C05_reruns_untouched_or_deleted_proof st T fs st1 e kd stk :
+  Good cmd g st -> no_inputless_phony g = true ->
+  buildF_full cmd g st T fs = Some (st1, Some (e, kd, stk)) ->
+  kd = FailUntouched \/ kd = FailDeleted ->
+  exists st2, build cmd g st1 T = Some st2 /\ In e (trace_delta st1 st2).
+Proof.
+  intros HGood Hnip Hfull Hkd. pose proof (goodF_of_good st HGood) as HG.
+  apply (C05_next_invocation_accepted_and_reruns_proof st T fs st1 e kd stk HG Hnip Hfull); [|intros _; exact HGood].
+  destruct Hkd as [->| ->]; [|exact I].
+  apply (rerun_reason_untouched_proof st T fs st1 e stk HG Hnip Hfull).
+Qed.
+
 (* the premise for FailUntouched from the model's own test, when its scan is accepted *)
-Theorem rerun_reason_untouched st T fs st1 e stk :
+Theorem rerun_reason_untouched_of_accepted st T fs st1 e stk :
   GoodF cmd g st -> buildF_full cmd g st T fs = Some (st1, Some (e, FailUntouched, stk)) ->
   (exists s p, scan (G stk) (W stk) (outs e) = ScanOk s p) ->
   rerun_reason g stk e FailUntouched.
